@@ -53,6 +53,9 @@ struct Outage {
     backoff: String,
     /// set as soon as the first re-registration of this outage reaches the fake server
     seen: Arc<std::sync::atomic::AtomicBool>,
+    /// how a scripted failing attempt fails: "error-frame" (answered with an Error frame) or
+    /// "cut" (the connection is cut again while the client waits for the answer)
+    how: String,
 }
 
 impl Outage {
@@ -98,7 +101,11 @@ async fn serve<T>(fake: &mut FakeServer, orig: &Frame, o: &Outage, op: &mut Join
                 if &inc.first != orig {
                     return (Served::Mismatch(format!("re-registration frame {:?} differs from the original {:?}", inc.first, orig)), None);
                 }
-                if attempts <= o.fails {
+                if attempts <= o.fails && o.how == "cut" {
+                    fake.cut();
+                    last_answer = Some(std::time::Instant::now());
+                    rejected.push(inc);
+                } else if attempts <= o.fails {
                     let _ = inc.stream.send(Frame::Error(ErrorPayload { code: o.code, message: "scripted failure".into() })).await;
                     last_answer = Some(std::time::Instant::now());
                     rejected.push(inc);
@@ -172,6 +179,8 @@ struct Params {
     max: u32,
     /// "close": the fake server closes its connections; "timeout": a relay drops every packet until both sides time out
     outage: String,
+    /// how scripted failing attempts fail (see `Outage::how`)
+    how: String,
 }
 
 async fn cell(set: Arc<CertSet>, p: Params) -> Result<String, Fail> {
@@ -257,7 +266,7 @@ async fn publisher(fake: &mut FakeServer, cutter: &Cutter, client: &selium::Clie
             }
             (publ, r)
         });
-        let (served, early) = serve(fake, &orig, &Outage { fails: p.fails[j - 1], code, backoff: p.backoff.clone(), seen: seen.clone() }, &mut op).await;
+        let (served, early) = serve(fake, &orig, &Outage { fails: p.fails[j - 1], code, backoff: p.backoff.clone(), seen: seen.clone(), how: p.how.clone() }, &mut op).await;
         let (pb, res) = match early {
             Some(x) => x,
             None => tokio::time::timeout(OP_BOUND, &mut op).await.map_err(|_| fail("hang", class, format!("outage {j}: send() neither completed nor failed within 20 s")))?.map_err(|e| fail("setup", "task", e.to_string()))?,
@@ -319,7 +328,7 @@ async fn subscriber(fake: &mut FakeServer, cutter: &Cutter, client: &selium::Cli
             let r = sub.next().await;
             (sub, r)
         });
-        let (served, early) = serve(fake, &orig, &Outage { fails: p.fails[j - 1], code, backoff: p.backoff.clone(), seen: seen.clone() }, &mut op).await;
+        let (served, early) = serve(fake, &orig, &Outage { fails: p.fails[j - 1], code, backoff: p.backoff.clone(), seen: seen.clone(), how: p.how.clone() }, &mut op).await;
         judge(&served, p, j, class)?;
         match served {
             Served::Recovered(inc, _) => {
@@ -400,7 +409,7 @@ async fn requestor(fake: &mut FakeServer, cutter: &Cutter, client: &selium::Clie
             }
             (req, r)
         });
-        let (served, early) = serve(fake, &orig, &Outage { fails: p.fails[j - 1], code, backoff: p.backoff.clone(), seen: seen.clone() }, &mut op).await;
+        let (served, early) = serve(fake, &orig, &Outage { fails: p.fails[j - 1], code, backoff: p.backoff.clone(), seen: seen.clone(), how: p.how.clone() }, &mut op).await;
         judge(&served, p, j, class)?;
         match served {
             Served::Recovered(inc, _) => {
@@ -500,7 +509,7 @@ async fn requestor_clones(fake: &mut FakeServer, cutter: &Cutter, client: &seliu
             }
             (b, r)
         });
-        let (served, early) = serve(fake, &orig, &Outage { fails: 0, code: REPLIER_ALREADY_BOUND, backoff: p.backoff.clone(), seen: seen_b.clone() }, &mut op_b).await;
+        let (served, early) = serve(fake, &orig, &Outage { fails: 0, code: REPLIER_ALREADY_BOUND, backoff: p.backoff.clone(), seen: seen_b.clone(), how: p.how.clone() }, &mut op_b).await;
         let mut cur_b = match served {
             Served::Recovered(inc, 1) if early.is_none() => inc,
             Served::Mismatch(m) => return Err(fail("re-registration-differs", class, m)),
@@ -520,7 +529,7 @@ async fn requestor_clones(fake: &mut FakeServer, cutter: &Cutter, client: &seliu
             }
             (a, r)
         });
-        let (served, early) = serve(fake, &orig, &Outage { fails: 0, code: REPLIER_ALREADY_BOUND, backoff: p.backoff.clone(), seen: seen_a.clone() }, &mut op_a).await;
+        let (served, early) = serve(fake, &orig, &Outage { fails: 0, code: REPLIER_ALREADY_BOUND, backoff: p.backoff.clone(), seen: seen_a.clone(), how: p.how.clone() }, &mut op_a).await;
         let mut cur_a = match served {
             Served::Recovered(inc, 1) if early.is_none() => inc,
             Served::Mismatch(m) => return Err(fail("re-registration-differs", class, m)),
@@ -569,7 +578,7 @@ async fn replier(fake: &mut FakeServer, cutter: &Cutter, client: &selium::Client
     for j in 1..=p.outages {
         cutter.outage(fake).await;
         let seen = Arc::new(std::sync::atomic::AtomicBool::new(false));
-        let (served, early) = serve(fake, &orig, &Outage { fails: p.fails[j - 1], code, backoff: p.backoff.clone(), seen: seen.clone() }, &mut listen).await;
+        let (served, early) = serve(fake, &orig, &Outage { fails: p.fails[j - 1], code, backoff: p.backoff.clone(), seen: seen.clone(), how: p.how.clone() }, &mut listen).await;
         judge(&served, p, j, class)?;
         match served {
             Served::Recovered(inc, _) => {
@@ -642,6 +651,37 @@ fn cells(tier: &str) -> Vec<Value> {
                         }
                     }
                 }
+                // thorough: every non-uniform vector of survivable outages up to length 3
+                if thorough && max > 1 {
+                    for len in 2..=3usize {
+                        let n = (max as usize).pow(len as u32);
+                        for code in 0..n {
+                            let fv: Vec<u32> = (0..len).map(|i| ((code / (max as usize).pow(i as u32)) % max as usize) as u32).collect();
+                            if fv.iter().all(|f| *f == fv[0]) {
+                                continue;
+                            }
+                            v.push(json!({"cell": id, "kind": kind, "items_before": pre, "outages": fv.len(), "failing_attempts_per_outage": fv, "failure": "retryable", "backoff": (["constant", "linear", "exponential"][id % 3]), "max_attempts": max}));
+                            id += 1;
+                        }
+                    }
+                }
+                // failing attempts that fail because the connection is lost again while the client
+                // waits for the answer to its re-registration
+                if pre == 0 || thorough {
+                    let mut fvs: Vec<Vec<u32>> = vec![vec![max]];
+                    if max > 1 {
+                        fvs.push(vec![1]);
+                        fvs.push(vec![max - 1, max - 1]);
+                    }
+                    if thorough && max > 1 {
+                        fvs.push(vec![1, max]);
+                        fvs.push(vec![max - 1, 0, max - 1]);
+                    }
+                    for fv in fvs {
+                        v.push(json!({"cell": id, "kind": kind, "items_before": pre, "outages": fv.len(), "failing_attempts_per_outage": fv, "failure": "retryable", "attempt_failure": "cut", "backoff": (["constant", "linear", "exponential"][id % 3]), "max_attempts": max}));
+                        id += 1;
+                    }
+                }
                 // unrecoverable answer to the first re-registration attempt
                 v.push(json!({"cell": id, "kind": kind, "items_before": pre, "outages": 1, "failing_attempts_per_outage": [1], "failure": "unrecoverable", "backoff": "constant", "max_attempts": max}));
                 id += 1;
@@ -674,6 +714,7 @@ pub async fn run(tier: &str, replaying: bool) -> ! {
                 backoff: c["backoff"].as_str().unwrap().to_string(),
                 max: c["max_attempts"].as_u64().unwrap() as u32,
                 outage: c["outage"].as_str().unwrap_or("close").to_string(),
+                how: c["attempt_failure"].as_str().unwrap_or("error-frame").to_string(),
             };
             let nontrivial = p.outages >= 2 || p.fails.iter().any(|f| *f >= 1);
             (nontrivial, cell(set, p).await)
@@ -686,7 +727,7 @@ pub async fn run(tier: &str, replaying: bool) -> ! {
     finish(
         rep,
         outs,
-        "every cell of: stream kind {publisher, subscriber, requestor, replier} x items exchanged before the first cut {0,1(,2)} x number of successive outages 1..=max+2 x failing re-registration attempts per outage 0..=max x backoff {constant, linear, exponential(2)} (all three in thorough, rotating in quick) with step 5 ms x max attempts {1,2(,3)}, plus one unrecoverable-answer cell per (kind, max, items), plus silent outages (a UDP relay drops every packet for 2.6 s against a 1.5 s idle time-out, so the connection ends by time-out instead of by a close frame) per (kind, max), plus two clones of one requestor recovering one after the other with a request of the first in flight. Oracle per outage: the re-registration frame equals the original; the fake server counts exactly fails+1 attempts (max when all fail, 1 when unrecoverable) regardless of earlier outages; with fails<max the stream works again (published item reaches the fake server / pushed item is yielded / retried and fresh requests are answered / a request sent to the replier is replied to); with fails==max too-many-retries is reported on the operation that hit the outage or on the next one; an unrecoverable answer is reported immediately. non-trivial = at least two outages or at least one failing attempt",
+        "every cell of: stream kind {publisher, subscriber, requestor, replier} x items exchanged before the first cut {0,1(,2)} x number of successive outages 1..=max+2 x failing re-registration attempts per outage 0..=max x backoff {constant, linear, exponential(2)} (all three in thorough, rotating in quick) with step 5 ms x max attempts {1,2(,3)}, plus (thorough) every non-uniform vector of survivable failure counts over up to three outages, plus cells whose failing attempts fail because the fake server cuts the connection again while the client waits for the answer to its re-registration (instead of answering with an error frame), plus one unrecoverable-answer cell per (kind, max, items), plus silent outages (a UDP relay drops every packet for 2.6 s against a 1.5 s idle time-out, so the connection ends by time-out instead of by a close frame) per (kind, max), plus two clones of one requestor recovering one after the other with a request of the first in flight. Oracle per outage: the re-registration frame equals the original; the fake server counts exactly fails+1 attempts (max when all fail, 1 when unrecoverable) regardless of earlier outages; with fails<max the stream works again (published item reaches the fake server / pushed item is yielded / retried and fresh requests are answered / a request sent to the replier is replied to); with fails==max too-many-retries is reported on the operation that hit the outage or on the next one; an unrecoverable answer is reported immediately. non-trivial = at least two outages or at least one failing attempt",
         "fault sequences are enumerated exhaustively; scheduling inside tokio/quinn is not controlled",
         json!({"step_ms": STEP_MS}),
         replaying,
